@@ -2,9 +2,10 @@
 # usage: tools/seed_campaign.sh [seed names...]   -- runs each seeded change against its property's check on a scratch worktree
 # (VERIF_REPO), records exit code and VIOLATION/UNDECIDED lines under seeded/<name>/result.txt
 cd "$(dirname "$0")/.."
-WT=/tmp/seedrun
-[ -d $WT ] || git -C /repo worktree add -q --detach $WT HEAD
-git -C $WT checkout -q --detach $(git -C /repo rev-parse HEAD); git -C $WT checkout -q -- .
+# a private worktree per invocation (concurrent campaigns must not reset each other's patched tree)
+WT=/tmp/seedrun_$$
+git -C /repo worktree add -q --detach $WT HEAD
+trap 'git -C /repo worktree remove --force $WT >/dev/null 2>&1' EXIT INT TERM
 names="$@"; [ -z "$names" ] && names=$(ls seeded | grep -E '^C[0-9]+-(r[0-9]+)?m[0-9]+$')
 for n in $names; do
   p=${n%%-*}
